@@ -88,7 +88,7 @@ func Generate(prop string, r *sim.Rand, tier string) *sim.Plan {
 	case "C07", "C02", "C03", "C17":
 		cfg.Twin = true
 	}
-	if prop == "C03" || (prop == "C01" && r.Chance(0.3)) || (prop == "C08" && r.Chance(0.5)) {
+	if prop == "C03" || ((prop == "C01" || prop == "C07") && r.Chance(0.3)) || (prop == "C08" && r.Chance(0.5)) {
 		for i := 0; i < cfg.Chains; i++ {
 			cfg.Rules = append(cfg.Rules, []string{"happy", "bit", "bit", "fabsim"}[r.Intn(4)])
 		}
@@ -232,6 +232,21 @@ func (g *gen) cut() CStep { return CStep{Op: "cut"} }
 func (g *gen) step(prop string) []CStep {
 	r := g.r
 	switch prop {
+	case "C08":
+		switch r.Weighted([]int{8, 8, 2, 4, 1, 1}) {
+		case 0:
+			return []CStep{g.call()}
+		case 1:
+			return []CStep{CStep{Op: "mut", Kind: []string{"ibtp", "ibtp", "xvm", "tx", "tx"}[r.Intn(5)], N: r.Intn(1 << 20), A: r.Intn(8), B: r.Intn(8), Local: r.Chance(0.5)}}
+		case 2:
+			return []CStep{g.ibtp()}
+		case 3:
+			return []CStep{g.cut()}
+		case 4:
+			return []CStep{g.proofIBTP()}
+		default:
+			return []CStep{g.transfer()}
+		}
 	case "C17":
 		switch r.Weighted([]int{14, 3, 4, 1}) {
 		case 0:
@@ -269,6 +284,23 @@ func (g *gen) step(prop string) []CStep {
 		}
 		return []CStep{g.transfer()}
 	default: // C01, C02, C04, C06, C07: mixed traffic
+		if prop == "C01" || prop == "C07" {
+			// every transaction kind the node accepts
+			switch r.Intn(12) {
+			case 0:
+				return []CStep{g.call()}
+			case 1:
+				return []CStep{CStep{Op: "mut", Kind: []string{"ibtp", "xvm", "tx"}[r.Intn(3)], N: r.Intn(1 << 20), A: r.Intn(8), B: r.Intn(8), Local: r.Chance(0.5)}}
+			case 2:
+				if len(g.cfg.Rules) > 0 {
+					return []CStep{g.proofIBTP()}
+				}
+			case 3:
+				if g.cfg.Relay > 0 {
+					return []CStep{g.relayIBTP()}
+				}
+			}
+		}
 		switch r.Weighted([]int{10, 3, 5, 1, 1}) {
 		case 4:
 			return []CStep{g.poor()}
